@@ -4,7 +4,7 @@ package openclosepb
 
 // Machine-checked contracts for this package (comment-only; excluded from normal builds).
 
-//@ property C07 C14
+//@ property C07 C14 C06
 //@ // subscribing is a read: the goroutine aggregates the stored positions into one message whose states ARE the stored
 //@ // positions, so the read mask has to be applied to a copy: what is sent is what FilterClone returned (which leaves its
 //@ // argument untouched, masks.(*ResponseFilter).FilterClone#post.argument-untouched), not a message filtered in place.
@@ -13,4 +13,8 @@ package openclosepb
 //@   option only step
 //@   track FilterClone
 //@   onsend send [mask-on-a-copy]: istype(lastcall(FilterClone), *traits.OpenClosePositions) && sent.Positions == cast(lastcall(FilterClone), *traits.OpenClosePositions)
+//@   // C06: what is streamed is exactly the read-mask projection of the aggregate: the preset is attached BEFORE the
+//@   // projection (the message handed to FilterClone already carries it), nothing is added to the projected copy afterwards
+//@   track presetForValue
+//@   onsend send [projection-last]: istype(lastarg(FilterClone, 1), *traits.OpenClosePositions) && cast(lastarg(FilterClone, 1), *traits.OpenClosePositions).Preset == lastcall(presetForValue, 0)
 //@   replay OpenClosePullMaskIntact()
